@@ -109,6 +109,19 @@ def algebra_jacobians(ctx, spec, N, chunk):
             (Ql, Qr), _ = evq(X)
             ctx.check_array("left_Q_block", name, np.abs(Ql - rJl[:, :3, 3:]).max(axis=(1, 2)), 1e-9 * sc, {"x": X})
             ctx.check_array("right_Q_block", name, np.abs(Qr - rJr[:, :3, 3:]).max(axis=(1, 2)), 1e-9 * sc, {"x": X})
+    if chunk == 0:
+        # numeric (DM) call path, incl. vectors a hair away from zero
+        Xn = np.concatenate([X[:12], spec.alg_rand(rng, 30, thi=10.0), spec.alg_rand(rng, 20, hi=2e-3, tlo=1e-9, thi=3e-7)])
+        Xn = Xn[spec.alg_angle(Xn) <= 2 * PI - 0.05]
+        rl, rr = ref_jacobians(spec, Xn)
+        el_, er_ = [], []
+        for k in range(len(Xn)):
+            e_ = alg.elem(ca.DM(Xn[k]))
+            vl, vr = ca.DM(e_.left_jacobian()).full(), ca.DM(e_.right_jacobian()).full()
+            el_.append(float(np.abs(vl - rl[k]).max()) if np.isfinite(vl).all() else np.inf)
+            er_.append(float(np.abs(vr - rr[k]).max()) if np.isfinite(vr).all() else np.inf)
+        ctx.check_array("numeric_left_jacobian_is_dexp", name, el_, 1e-9 * spec.alg_scale(Xn), {"x": Xn})
+        ctx.check_array("numeric_right_jacobian_is_dexp", name, er_, 1e-9 * spec.alg_scale(Xn), {"x": Xn})
     ctx.sample({"algebra": name, "x": X[min(len(X) - 1, 5)]})
 
 
